@@ -19,7 +19,7 @@ var Plans = map[string][]PlanItem{
 	"C12": {{Scen: "persist-fault", Quick: 160, Thorough: 12000}, {Scen: "lifecycle", Quick: 800, Thorough: 60000}, {Scen: "merge-read-fault", Quick: 120, Thorough: 8000}},
 	"C19": {{Scen: "read-fault", Quick: 640, Thorough: 40000}, {Scen: "read-fault-large", Quick: 160, Thorough: 12000}, {Scen: "merge-read-fault", Quick: 120, Thorough: 8000}},
 	"C09": {{Scen: "concurrent", Quick: 3600, Thorough: 300000}},
-	"C14": {{Scen: "build-history", Quick: 2500, Thorough: 150000}},
+	"C14": {{Scen: "build-history", Quick: 2500, Thorough: 150000}, {Scen: "fresh-process", Quick: 96, Thorough: 4000}},
 	"C10": {{Scen: "interop", Quick: 2500, Thorough: 150000}, {Scen: "golden", Quick: 400, Thorough: 2000}},
 	"C11": {{Scen: "world", Quick: 3000, Thorough: 150000}, {Scen: "persist-fault", Quick: 48, Thorough: 2000}, {Scen: "aligned", Quick: 8, Thorough: 96}},
 	"C16": {{Scen: "world", Quick: 4000, Thorough: 250000}, {Scen: "giant", Quick: 4, Thorough: 64}},
